@@ -8,6 +8,7 @@ package c16
 import (
 	"fmt"
 	"strings"
+	"time"
 
 	"github.com/boz/kcache"
 	"github.com/boz/kcache/filter"
@@ -26,6 +27,8 @@ type cfg struct {
 	OnClone   bool // the monitor is created on a filter clone (CloneWithFilter(Null)) of the root, not on the root
 	Reuse     bool // a second untyped monitor whose handler comes from the SAME builder with replaced callbacks
 	Upd2      bool // the stream is two updates of one object, then its delete (a lagging handler has both updates queued)
+	SlowInit  bool // OnInitialize returns only after the whole stream has been published and queued behind it
+	Partial   bool // the handler registers OnCreate and OnUpdate only (no OnInitialize, no OnDelete)
 	Foreign   bool // the cache holds an object of another type at readiness (typed monitors must skip it, not give up)
 	Typed     bool
 	K         int    // events published
@@ -45,6 +48,12 @@ func (c cfg) name() string {
 	}
 	if c.Upd2 {
 		t += "+two-updates"
+	}
+	if c.Partial {
+		t += "+partial-handler"
+	}
+	if c.SlowInit {
+		t += "+slow-initialize"
 	}
 	if c.OnClone {
 		t += "+on-filter-clone"
@@ -92,6 +101,9 @@ func (in *inst) cb(kind string, arg string) {
 	}
 	vs.Note(btou(in.doneSeen))
 	in.log = append(in.log, "enter "+kind+":"+arg)
+	if in.c.SlowInit && kind == "init" {
+		vs.SleepIdle(time.Second) // until nothing else can move: the stream is queued behind this callback
+	}
 	vs.Step(7) // the handler takes some time: anything may happen meanwhile
 	if in.doneSeen && len(in.lateStart) == 0 {
 		// it started before Done() closed and is still running after
@@ -130,6 +142,11 @@ func (in *inst) run() {
 			OnCreate(func(p *corev1.Pod) { in.cb("create", hx.ObjString(p)) }).
 			OnUpdate(func(p *corev1.Pod) { in.cb("update", hx.ObjString(p)) }).
 			OnDelete(func(p *corev1.Pod) { in.cb("delete", hx.ObjString(p)) }).Create()
+		if c.Partial {
+			h = pod.BuildHandler().
+				OnCreate(func(p *corev1.Pod) { in.cb("create", hx.ObjString(p)) }).
+				OnUpdate(func(p *corev1.Pod) { in.cb("update", hx.ObjString(p)) }).Create()
+		}
 		if c.Statement {
 			b := pod.BuildHandler()
 			b.OnInitialize(func(l []*corev1.Pod) {
@@ -168,6 +185,11 @@ func (in *inst) run() {
 			OnUpdate(func(o metav1.Object) { in.cb("update", hx.ObjString(o)) }).
 			OnDelete(func(o metav1.Object) { in.cb("delete", hx.ObjString(o)) })
 		h := hb.Create()
+		if c.Partial {
+			h = kcache.BuildHandler().
+				OnCreate(func(o metav1.Object) { in.cb("create", hx.ObjString(o)) }).
+				OnUpdate(func(o metav1.Object) { in.cb("update", hx.ObjString(o)) }).Create()
+		}
 		if c.Reuse {
 			// the builder is used again for another handler: the first one keeps its own callbacks
 			rec := func(k string) func(metav1.Object) {
@@ -267,6 +289,19 @@ func (in *inst) check(r *vs.Result) []string {
 			msgs = append(msgs, fmt.Sprintf("callbacks although publisher shut down before ready | %v", calls))
 		}
 	}
+	if c.Partial {
+		// only the registered callbacks run, one per matching event, nothing for the content at readiness
+		var want []string
+		for _, e := range in.root.Published {
+			if !strings.HasPrefix(e, "delete:") {
+				want = append(want, e)
+			}
+		}
+		if strings.Join(calls, " ") != strings.Join(want, " ") {
+			msgs = append(msgs, fmt.Sprintf("callbacks do not match the delivered events | a handler with OnCreate and OnUpdate only was called %v, published %v", calls, in.root.Published))
+		}
+		return msgs
+	}
 	ninit := 0
 	for i, cl := range calls {
 		if strings.HasPrefix(cl, "init:") {
@@ -313,7 +348,9 @@ func (in *inst) check(r *vs.Result) []string {
 		found := false
 		for i := 0; i+len(rest) <= len(pub) && !found; i++ {
 			if strings.Join(pub[i:i+len(rest)], " ") == strings.Join(rest, " ") {
-				if c.CloseAt >= 0 || i+len(rest) == len(pub) {
+				// (a monitor on the root subscribed before the first event: with nothing closed it is called for every one
+				// of them; a filter clone may have absorbed the first events into its content at readiness)
+				if c.CloseAt >= 0 || (i == 0 && len(rest) == len(pub)) || (c.OnClone && i+len(rest) == len(pub)) {
 					found = true
 				}
 			}
@@ -367,6 +404,9 @@ func Property() runner.Property {
 				out = append(out, scenario(cfg{Typed: typed, K: 3, CloseAt: -1, Closer: "none", Mode: "S2", Bound: 3}))
 				out = append(out, scenario(cfg{Typed: typed, Foreign: true, K: 2, CloseAt: -1, Closer: "none", Mode: "S2", Bound: 3}))
 				out = append(out, scenario(cfg{Typed: typed, Upd2: true, K: 3, CloseAt: -1, Closer: "none", Mode: "S2", Bound: 2}))
+				out = append(out, scenario(cfg{Typed: typed, Upd2: true, SlowInit: true, K: 3, CloseAt: -1, Closer: "none", Mode: "S2", Bound: 1}))
+				out = append(out, scenario(cfg{Typed: typed, SlowInit: true, K: 3, CloseAt: -1, Closer: "none", Mode: "S2", Bound: 1}))
+				out = append(out, scenario(cfg{Typed: typed, Partial: true, K: 3, CloseAt: -1, Closer: "none", Mode: "S2", Bound: 1}))
 				out = append(out, scenario(cfg{Typed: typed, Statement: true, K: 2, CloseAt: -1, Closer: "none", Mode: "S2", Bound: 1}))
 				if !typed {
 					out = append(out, scenario(cfg{Reuse: true, K: 2, CloseAt: -1, Closer: "none", Mode: "S2", Bound: 2}))
